@@ -754,7 +754,7 @@ func init() {
 		ID:    "C01",
 		Level: "exploration",
 		Rule: "cases are authentication attempts against the real StreamAuthenticateFunc built from PRNG-generated key lists (1..600 keys, 4 ciphers mixed, duplicate secrets), issued in sequences so that earlier attempts permute the MRU/last-client-IP state; " +
-			"a case class is (kind, list-size bucket, cipher, position class, client-IP relation | invalid-input class); distinct_nontrivial counts distinct classes observed; every list additionally gets a sweep over every position; a concurrent phase runs lookups against list replacement",
+			"a case class is (kind, list-size bucket, cipher, position class, client-IP relation | invalid-input class); distinct_nontrivial counts distinct classes observed; every list additionally gets a sweep over every position; a concurrent phase runs lookups against list replacement; rotation of secrets under unchanged ids; 120..320 connections parked in the authenticator before their first bytes while valid clients authenticate",
 		Assumptions: []string{
 			"the harness codec (sscodec) is an independent implementation of Shadowsocks AEAD; its interoperability with the server is itself exercised by every valid case",
 			"in-memory StreamConn at the authenticator boundary; the end-to-end 'no target contacted' clause is observed on real sockets by the C06/C15 rigs and by C01's e2e phase",
